@@ -91,6 +91,25 @@ def single_function_contract(return_params):
         out.append(("the optimiser fits the canonical string with that max_param on the caller's likelihood",
                     z3.And(lab(C["optimise_fun"][0][0], fstr1), same(C["optimise_fun"][0][1], a["likelihood"]),
                            okw["max_param"].t == mp if "max_param" in okw else z3.BoolVal(False))))
+        # the caller's search settings reach the optimiser: (fstr, likelihood, tmax, pmin, pmax, try_integration=, Niter_params=[Niter], Nconv_params=[Nconv], log_opt=)
+        oa = C["optimise_fun"][0]
+
+        def eqv(x, y):
+            if isinstance(x, (VInt, VBool)) and isinstance(y, (VInt, VBool)):
+                return eng.as_int(x) == eng.as_int(y) if isinstance(x, VInt) else x.t == y.t
+            return z3.BoolVal(False)
+
+        def one(v, y):
+            if not isinstance(v, VRef):
+                return z3.BoolVal(False)
+            o = S.seq(v)
+            return z3.And(o.len == 1, eqv(o.get(z3.IntVal(0)), y))
+        fw = [len(oa) >= 5 and eqv(oa[2], a["tmax"]) or z3.BoolVal(False), len(oa) >= 5 and eqv(oa[3], a["pmin"]) or z3.BoolVal(False),
+              len(oa) >= 5 and eqv(oa[4], a["pmax"]) or z3.BoolVal(False),
+              eqv(okw["try_integration"], a["try_integration"]) if "try_integration" in okw else z3.BoolVal(False),
+              eqv(okw["log_opt"], a["log_opt"]) if "log_opt" in okw else z3.BoolVal(False),
+              one(okw.get("Niter_params"), a["Niter"]), one(okw.get("Nconv_params"), a["Nconv"])]
+        out.append(("the caller's tmax, pmin, pmax, try_integration, log_opt, Niter and Nconv reach the optimiser unchanged", z3.And(*fw)))
         chi2, popt = C["optimise_fun.ret"].items
         if "convert_params" in C:
             cpa, cpk = C["convert_params"]
@@ -298,4 +317,65 @@ def relabel_contract(func):
                  requires=requires, ensures=ensures, setup=setup, region=_relabel_region, raises=lambda S, a, e: z3.BoolVal(False))
     c.region_name = "relabel: operator names, parameters, replace_floats"
     c.loop_select = loop_select
+    return c
+
+
+# ------------------------------------------------------------ fit_from_string: the hand-over to single_function (C20)
+def _ffs_tail_region(fnode):
+    for k, t in enumerate(fnode.body):
+        if isinstance(t, _ast.Assign) and isinstance(t.value, _ast.Call) and getattr(t.value.func, "id", None) == "single_function":
+            return fnode.body[k:]
+    return None
+
+
+def ffs_forward_contract(return_params):
+    """Tail of fit_from_string: the processed label list and every search setting of the caller are handed to single_function
+    unchanged, exactly once, and (negloglike, DL, labels[, params]) of that call is returned."""
+    names = ["pmin", "pmax", "tmax", "try_integration", "verbose", "Niter", "Nconv", "log_opt", "return_params"]
+
+    def setup(eng, st, args):
+        st.ghost["calls"] = {}
+
+        def m(eng_, st_, a, kw, node):
+            c = dict(st_.ghost["calls"])
+            c["n"] = c.get("n", 0) + 1
+            c["args"], c["kw"] = a, kw
+            c["ret"] = VTuple([eng_.fresh(T.float, "nll", st_), eng_.fresh(T.float, "DL", st_), eng_.fresh(T.arr(T.float), "params", st_)][:3 if return_params else 2])
+            st_.ghost["calls"] = c
+            return c["ret"]
+        eng.models["single_function"] = m
+
+    def ensures(S, a, res):
+        C = S.st.ghost["calls"]
+        if C.get("n") != 1:
+            return [("single_function is called exactly once", z3.BoolVal(False))]
+        ar, kw = C["args"], C["kw"]
+        same = lambda x, y: z3.BoolVal(isinstance(x, VRef) and isinstance(y, VRef) and x.addr == y.addr)
+
+        def eqv(x, y):
+            if isinstance(x, VBool) and isinstance(y, VBool):
+                return x.t == y.t
+            if isinstance(x, (VInt, VBool)) and isinstance(y, (VInt, VBool)):
+                return S.eng.as_int(x) == S.eng.as_int(y)
+            return z3.BoolVal(False)
+        out = [("single_function gets the processed labels, the caller's basis and likelihood",
+                z3.And(len(ar) == 3 and same(ar[0], a["labels"]) or z3.BoolVal(False), len(ar) == 3 and same(ar[1], a["basis_functions"]) or z3.BoolVal(False),
+                       len(ar) == 3 and same(ar[2], a["likelihood"]) or z3.BoolVal(False)))]
+        for n in names:
+            out.append(("%s is handed on unchanged" % n, eqv(kw[n], a[n]) if n in kw else z3.BoolVal(False)))
+        want = 4 if return_params else 3
+        if not (isinstance(res, VTuple) and len(res.items) == want):
+            return out + [("returns (negloglike, DL, labels%s)" % (", params" if return_params else ""), z3.BoolVal(False))]
+        r = C["ret"].items
+        out.append(("returns the likelihood and description length of that call and the processed labels",
+                    z3.And(fsame(res.items[0], r[0]), fsame(res.items[1], r[1]), same(res.items[2], a["labels"]))))
+        if return_params:
+            out.append(("returns the parameters of that call", same(res.items[3], r[2])))
+        return out
+
+    params = {"labels": T.list(T.label), "basis_functions": T.list(T.label), "likelihood": lambda e, s: s.alloc(HObj("Lik", {})),
+              "pmin": T.int, "pmax": T.int, "tmax": T.int, "try_integration": T.bool, "verbose": T.bool, "Niter": T.int, "Nconv": T.int, "log_opt": T.bool,
+              "return_params": lambda e, s: VBool(return_params)}
+    c = Contract("fit_from_string", params, ensures=ensures, setup=setup, region=_ffs_tail_region, raises=lambda S, a, e: z3.BoolVal(False))
+    c.region_name = "hand-over to single_function"
     return c
